@@ -7,16 +7,17 @@ mrows = ["| mutant (tools/mutants.json) | what it does | caught by (quick tier) 
 for name, spec in sorted(d.items()):
     mrows.append(f"| `{name}` | {spec['why'].replace('|', '/')[:150]} | {', '.join(spec['expect']) or '— (equivalent)'} |")
 srows = ["| seeded change | what it needs to manifest | caught by | note |", "|---|---|---|---|"]
-n = missed_first = 0
+n = missed_first = outside = 0
 for dd in sorted(os.listdir(os.path.join(HERE, "seeded"))):
     m = json.load(open(os.path.join(HERE, "seeded", dd, "meta.json")))
     needs = (m.get("needs_to_manifest") or "").replace("\n", " ").replace("|", "/")
     needs = needs if len(needs) <= 230 else needs[:227] + "..."
     note = (m.get("note") or "").replace("|", "/")
-    note = note if len(note) <= 260 else note[:257] + "..."
+    note = note if len(note) <= 260 or m.get("outside_domain") else note[:257] + "..."
     n += 1
-    missed_first += bool(m.get("note"))
-    srows.append(f"| `seeded/{dd}` | {needs} | {', '.join(m['caught_by_quick_checks']) or 'NOT CAUGHT'} | {note} |")
+    missed_first += "missed " in (m.get("note") or "").lower()
+    outside = outside + 1 if m.get("outside_domain") else outside
+    srows.append(f"| `seeded/{dd}` | {needs} | {', '.join(m['caught_by_quick_checks']) or ('not caught - judged outside the property (see note)' if m.get('outside_domain') else 'NOT CAUGHT')} | {note} |")
 NL = "\n"
 sec = f"""
 
@@ -35,18 +36,22 @@ check(s) in the third column; the one exception is an equivalent mutant (explain
 
 ### 7.2 Seeded changes written by independent sub-agents (`seeded/<id>-<n>/`)
 
-In three rounds, fresh sub-agents were given only the text of a property and a scratch git worktree of /repo under /tmp
+In six rounds, fresh sub-agents were given only the text of a property and a scratch git worktree of /repo under /tmp
 (nothing from /verif) and asked for two changes per property that break it, keep the 413 existing tests green and need
 something specific to manifest, each with a demonstration program. Round 1 (-1, -2: one agent per property) and round 2
 (-3, -4: also told to prefer cooperating sites and less obvious places) covered all 19 properties; round 3 (-5, -6: ten
 properties, told to make the change HARD TO FIND BY RANDOM TESTING - a conjunction of two or three specific conditions -
 and to avoid the ideas of the earlier rounds) was aimed at the properties whose checks had needed strengthening; round 4
 (-5, -6 of the remaining nine properties) used the same "hard to find" brief; round 5 (-7, -8: all 19 properties, one or
-two changes each) asked for changes made of TWO COOPERATING EDITS, each harmless alone. Every change was confirmed here before it was kept
+two changes each) asked for changes made of TWO COOPERATING EDITS, each harmless alone; round 6 (-9, -10: all 19
+properties) asked for one plausible OPTIMISATION (cache / memo keyed on too little, fast path, buffer reuse) and one
+ERROR-HANDLING REFACTOR (reordered validation, changed except clauses, moved rollback) per property, whose effect shows
+only for a particular input class, on a later use of an object, or after a particular earlier call. Every change was confirmed here before it was kept
 (`tools/seedcheck.sh`: suite with the change: 413 passed; demo without the change: exit 0; demo with the change: exit 1)
-and then the quick tier of the property's check was run against the changed tree. {n} changes were kept. {n - missed_first}
+and then the quick tier of the property's check was run against the changed tree. {n} changes were kept. {n - missed_first - outside}
 were caught by the first version of the checks; {missed_first} were missed at first and led to the strengthenings described in
-the note column (all are caught now unless the third column says otherwise).
+the note column (all are caught now); {outside} is archived although it is NOT caught: it was judged to lie outside the
+property as stated (its note says why), and `tools/seedrun.py` expects the check to stay quiet on it.
 
 {NL.join(srows)}
 
